@@ -4,4 +4,17 @@ TS21 == <<2, 1>>
 TS2 == <<2>>
 TS3 == <<3>>
 TS31 == <<3, 1>>
+\* tile lists of the recorded tile-decision traces (Trace_Tiles2.tla)
+TS_2_1 == <<2, 1>>
+TS_2 == <<2>>
+TS_4 == <<4>>
+TS_8 == <<8>>
+TS_4_2 == <<4, 2>>
+TS_4_2_1 == <<4, 2, 1>>
+TS_8_4 == <<8, 4>>
+TS_8_2 == <<8, 2>>
+TS_8_4_2 == <<8, 4, 2>>
+TS_16_4 == <<16, 4>>
+TS_6_3 == <<6, 3>>
+TS_8_4_2_1 == <<8, 4, 2, 1>>
 ====
